@@ -74,9 +74,23 @@ def fw_names(run):
     return sets, tables, tasks
 
 
+def trxcon_sources():
+    """sched_mframe.c plus the files of the same directory that DEFINE the layouts[] array or frame tables in this tree"""
+    d = os.path.dirname(os.path.join(vf.REPO, TRXCON_C))
+    out = [os.path.join(vf.REPO, TRXCON_C)]
+    for fn in sorted(os.listdir(d)):
+        p = os.path.join(d, fn)
+        if fn.endswith(".c") and p not in out:
+            t = _active(open(p, errors="replace").read())
+            if re.search(r"\bstruct\s+l1sched_tdma_multiframe\s+\w+\s*\[[^\]]*\]\s*=", t) or \
+               re.search(r"\bconst\s+struct\s+l1sched_tdma_frame\s+\w+\s*\[[^\]]*\]\s*=", t):
+                out.append(p)
+    return out
+
+
 def trxcon_names(run):
-    c = _active(_read(TRXCON_C))
-    tables = re.findall(r"static\s+const\s+struct\s+l1sched_tdma_frame\s+(\w+)\s*\[[^\]]*\]", c)
+    c = "\n".join(_active(open(p, errors="replace").read()) for p in trxcon_sources())
+    tables = re.findall(r"\bconst\s+struct\s+l1sched_tdma_frame\s+(\w+)\s*\[[^\]]*\]\s*=", c)
     lch = [n for n in enum_names(_read(TRXCON_H), "l1sched_lchan_type") if not n.startswith("_")]
     inc = "".join("FTABLE(%s)\n" % t for t in tables) + "".join("LCHAN(%s)\n" % n for n in lch)
     open(os.path.join(run.scratch, "c11_trxcon_names.inc"), "w").write(inc)
@@ -214,8 +228,10 @@ def dump_fw_behavioural(run):
 def dump_trxcon(run):
     trxcon_names(run)
     exe = os.path.join(run.scratch, "c11_trxcon_dump")
-    cmd = ["gcc", "-O0", "-w", '-DC11_SCHED_MFRAME_C="%s"' % os.path.join(vf.REPO, TRXCON_C),
-           "-I", run.scratch, "-I", SHIM_TRXCON, "-I", TRXCON_INC,
+    srcs = trxcon_sources()
+    cmd = ["gcc", "-O0", "-w", '-DC11_SCHED_MFRAME_C="%s"' % srcs[0]] + \
+          ['-DC11_SCHED_EXTRA%d_C="%s"' % (i + 1, p) for i, p in enumerate(srcs[1:3])] + \
+          ["-I", run.scratch, "-I", SHIM_TRXCON, "-I", TRXCON_INC,
            os.path.join(vf.ROOT, "harness/c/c11_trxcon_dump.c"), "-o", exe]
     rc, out = vf.sh(cmd, timeout=600)
     if rc != 0:
